@@ -385,9 +385,123 @@ func c01SortedAt(list ssa.Value, at ssa.Instruction, depth int) bool {
 	return false
 }
 
-// c01TextJoins: the strings.Join calls whose result the function returns (through helpers that return it).
-func c01TextJoins(f *ssa.Function) []*ssa.Call {
-	var out []*ssa.Call
+// c01Join: a place where a list of commands becomes one text: strings.Join(list, sep) - at is the call -, or a
+// hand-written join: the String() of a local strings.Builder / bytes.Buffer into which the elements of list are written -
+// at is the instruction that takes the element.
+type c01Join struct {
+	list ssa.Value
+	at   ssa.Instruction
+	pos  token.Pos
+}
+
+var c01BuilderString = map[string]bool{"(*strings.Builder).String": true, "(*bytes.Buffer).String": true}
+
+// c01BuilderWrites: the values written into the builder / buffer at ptr (WriteString, Write, WriteByte, io.WriteString,
+// fmt.Fprint*), also by repository helpers that are given the pointer.
+func c01BuilderWrites(ptr ssa.Value, depth int) []ssa.Value {
+	var out []ssa.Value
+	refs := ptr.Referrers()
+	if refs == nil || depth > 3 {
+		return nil
+	}
+	alias := map[ssa.Value]bool{ptr: true}
+	users := append([]ssa.Instruction{}, *refs...)
+	for _, r := range *refs {
+		if mi, ok := r.(*ssa.MakeInterface); ok && mi.Referrers() != nil {
+			alias[mi] = true
+			users = append(users, *mi.Referrers()...)
+		}
+	}
+	for _, r := range users {
+		cc := callCommon(r)
+		if cc == nil {
+			continue
+		}
+		if sc := cc.StaticCallee(); sc != nil && isRepoFn(sc) && len(unwrap(sc).Blocks) > 0 {
+			t := unwrap(sc)
+			for k, a := range cc.Args {
+				if alias[a] && k < len(t.Params) && len(cc.Args) == len(t.Params) {
+					out = append(out, c01BuilderWrites(t.Params[k], depth+1)...)
+				}
+			}
+			continue
+		}
+		n := calleeName(cc)
+		if c01BuilderString[n] || len(cc.Args) == 0 {
+			continue
+		}
+		uses := false
+		for _, a := range cc.Args {
+			uses = uses || alias[a]
+		}
+		if !uses {
+			continue
+		}
+		for _, a := range cc.Args {
+			if alias[a] {
+				continue
+			}
+			// the variadic arguments of fmt.Fprint*: the elements of the argument slice
+			if sl, ok := a.(*ssa.Slice); ok {
+				if arr, isA := sl.X.(*ssa.Alloc); isA {
+					out = append(out, c01StoresInto(arr)...)
+					continue
+				}
+			}
+			out = append(out, a)
+		}
+	}
+	return out
+}
+
+// c01ElemOfList: v is (made from) an element taken from a list (`for _, s := range list`): the list and the
+// instruction that takes the element.
+func c01ElemOfList(v ssa.Value, depth int) (ssa.Value, ssa.Instruction) {
+	if v == nil || depth > 6 {
+		return nil, nil
+	}
+	switch x := v.(type) {
+	case *ssa.UnOp:
+		if ia, ok := x.X.(*ssa.IndexAddr); ok && x.Op == token.MUL {
+			if _, isSlice := ia.X.Type().Underlying().(*types.Slice); isSlice {
+				return ia.X, ia
+			}
+		}
+	case *ssa.BinOp:
+		if x.Op == token.ADD {
+			if l, at := c01ElemOfList(x.X, depth+1); l != nil {
+				return l, at
+			}
+			return c01ElemOfList(x.Y, depth+1)
+		}
+	case *ssa.Phi:
+		for _, e := range x.Edges {
+			if l, at := c01ElemOfList(e, depth+1); l != nil {
+				return l, at
+			}
+		}
+	case *ssa.MakeInterface:
+		return c01ElemOfList(x.X, depth+1)
+	case *ssa.Convert:
+		return c01ElemOfList(x.X, depth+1)
+	case *ssa.ChangeType:
+		return c01ElemOfList(x.X, depth+1)
+	case *ssa.Call:
+		if x.Call.StaticCallee() != nil && !isRepoFn(x.Call.StaticCallee()) {
+			for _, a := range x.Call.Args {
+				if l, at := c01ElemOfList(a, depth+1); l != nil {
+					return l, at
+				}
+			}
+		}
+	}
+	return nil, nil
+}
+
+// c01TextJoins: the joins (strings.Join calls, hand-written joins into a builder) whose result the function returns
+// (through helpers that return it).
+func c01TextJoins(f *ssa.Function) []c01Join {
+	var out []c01Join
 	seen := map[ssa.Value]bool{}
 	var walk func(v ssa.Value, d int)
 	walk = func(v ssa.Value, d int) {
@@ -438,7 +552,17 @@ func c01TextJoins(f *ssa.Function) []*ssa.Call {
 			}
 		case *ssa.Call:
 			if calleeName(&x.Call) == "strings.Join" {
-				out = append(out, x)
+				out = append(out, c01Join{x.Call.Args[0], x, x.Pos()})
+				return
+			}
+			if c01BuilderString[calleeName(&x.Call)] && len(x.Call.Args) == 1 {
+				done := map[ssa.Instruction]bool{}
+				for _, wv := range c01BuilderWrites(x.Call.Args[0], 0) {
+					if list, at := c01ElemOfList(wv, 0); list != nil && !done[at] {
+						done[at] = true
+						out = append(out, c01Join{list, at, at.Pos()})
+					}
+				}
 				return
 			}
 			if sc := x.Call.StaticCallee(); sc != nil && isRepoFn(sc) && len(sc.Blocks) > 0 {
@@ -466,8 +590,8 @@ func c01TextJoins(f *ssa.Function) []*ssa.Call {
 
 func runC01M1(c *Ctx, builder *ssa.Function) {
 	joins := c01TextJoins(builder)
-	for _, call := range joins {
-		c.check("C01.M1", fnKey(builder)+"|command list sorted before it is joined", call.Pos(), c01SortedAt(call.Call.Args[0], call, 0),
+	for _, j := range joins {
+		c.check("C01.M1", fnKey(builder)+"|command list sorted before it is joined", j.pos, c01SortedAt(j.list, j.at, 0),
 			"the commands are collected from concurrent goroutines / map iteration; without sorting, the same registry state yields differently ordered texts, each of which is applied as a change (and command order decides which route wins)")
 	}
 	c.atLeast("C01.M1", "joins of the command list into the text the builder returns", len(joins), 1)
